@@ -231,6 +231,11 @@ inline void buildDevs(const Seed &seed, SeedInfo &si)
                         std::vector<std::string> menu;
                         if (el == "cn") menu = numericMenu();
                         else { menu = {"", "nonexistent", "1x", "a b", " x ", "\xff"}; for (auto &v : si.variableNames) menu.push_back(v); }
+                        // long runs of blanks around the token (trimmed by several stages, each in its own way)
+                        for (size_t blanks : {size_t(1000), size_t(30000), size_t(60000)}) {
+                            menu.push_back(k.text + std::string(blanks, ' '));
+                            menu.push_back(std::string(blanks, '\n') + k.text);
+                        }
                         for (auto &v : menu) {
                             if (v == k.text) continue;
                             Dev d{X_SET, 'a'}; d.node = e->id; d.pos = ord; d.val = xmlEsc(v); push(d);
@@ -279,8 +284,10 @@ inline void buildDevs(const Seed &seed, SeedInfo &si)
                 int nkids = 0;
                 for (auto &k : e->kids) if (k.k == XN::ELEM) ++nkids;
                 static const char *INS[] = {"junk", "  x  ", "<!--c-->", "<![CDATA[<x>&]]>", "&amp;", "&#65;", "&nope;", "&e;", "&m;", "<?pi x?>", "<foo/>",
-                                            "<foo xmlns=\"http://example.com/foreign\"><bar/></foo>", "]]>", "<!-- -- -->", "&#0;"};
-                for (int pos = 0; pos <= nkids; ++pos) {
+                                            "<foo xmlns=\"http://example.com/foreign\"><bar/></foo>", "]]>", "<!-- -- -->", "&#0;", "#blanks1000", "#blanks30000"};
+                bool holdsText = false;
+                for (auto &k : e->kids) if (k.k == XN::TEXT && !k.blank()) holdsText = true;
+                for (int pos = holdsText ? -1 : 0; pos <= nkids; ++pos) { // -1: in front of everything, i.e. before the text of a token element
                     for (size_t v = 0; v < sizeof INS / sizeof *INS; ++v) {
                         Dev d{C_INS, 'c'}; d.node = e->id; d.pos = pos; d.val = INS[v];
                         if (judge && !math && v == 0) d.why = "text-in-cellml-element:" + parentLocal[ei] + "/" + el;
@@ -362,10 +369,11 @@ inline bool applyDom(XN &doc, const Dev &d)
     case C_INS: {
         XN c;
         c.k = XN::RAW;
-        c.text = d.val;
+        c.text = d.val == "#blanks1000" ? std::string(1000, ' ') : d.val == "#blanks30000" ? std::string(30000, ' ') : d.val;
         int seen = 0;
         size_t at = n->kids.size();
-        for (size_t i = 0; i < n->kids.size(); ++i) if (n->kids[i].k == XN::ELEM) { if (seen++ == d.pos) { at = i; break; } }
+        if (d.pos < 0) at = 0;
+        else for (size_t i = 0; i < n->kids.size(); ++i) if (n->kids[i].k == XN::ELEM) { if (seen++ == d.pos) { at = i; break; } }
         n->kids.insert(n->kids.begin() + at, c);
         if (d.val == "&e;" || d.val == "&m;") { // needs a declaration: internal subset in front of the root element
             XN dt;
